@@ -645,18 +645,21 @@ impl AssemblyCode {
                             flags = FlagsState::Y;
                         }
                         AsmMnemonic::DEC | AsmMnemonic::INC => {
+                            // Like a store: the cell may also be reached through another
+                            // operand text (arr+1 and arr,X), so everything that was read from
+                            // memory is forgotten
                             if let Some(v) = &accumulator {
-                                if v.eq(&inst.dasm_operand) {
+                                if !v.starts_with("#") {
                                     accumulator = None;
                                 }
                             }
                             if let Some(v) = &x_register {
-                                if v.eq(&inst.dasm_operand) {
+                                if !v.starts_with("#") {
                                     x_register = None;
                                 }
                             }
                             if let Some(v) = &y_register {
-                                if v.eq(&inst.dasm_operand) {
+                                if !v.starts_with("#") {
                                     y_register = None;
                                 }
                             }
@@ -746,7 +749,22 @@ impl AssemblyCode {
                         AsmMnemonic::LSR
                         | AsmMnemonic::ASL
                         | AsmMnemonic::ROL
-                        | AsmMnemonic::ROR => accumulator = None,
+                        | AsmMnemonic::ROR => {
+                            accumulator = None;
+                            if !inst.dasm_operand.is_empty() {
+                                // Memory form: a store as far as X and Y are concerned
+                                if let Some(v) = &x_register {
+                                    if !v.starts_with("#") {
+                                        x_register = None;
+                                    }
+                                }
+                                if let Some(v) = &y_register {
+                                    if !v.starts_with("#") {
+                                        y_register = None;
+                                    }
+                                }
+                            }
+                        }
                         AsmMnemonic::PLA | AsmMnemonic::PHA => accumulator = None,
                         AsmMnemonic::JSR | AsmMnemonic::JMP => {
                             accumulator = None;
